@@ -157,6 +157,14 @@ def observe(spec, rhs, left, st):
                 op = ops.build(spec)
                 out = op.solve(rhs.clone()) if left is None else op.solve(rhs.clone(), left.clone())
                 res["out"] = out.detach() if torch.is_tensor(out) else out
+                # a second solve on the SAME object (cached factors must not change the answer)
+                n1, c1 = len(cap.msgs), len(cgcalls)
+                try:
+                    out2 = op.solve(rhs.clone()) if left is None else op.solve(rhs.clone(), left.clone())
+                    res["out2"] = out2.detach() if torch.is_tensor(out2) else out2
+                except Exception as ex:  # noqa
+                    res["exc2"] = "%s: %s" % (type(ex).__name__, str(ex)[:160])
+                res["split"] = (n1, c1)
             except Exception as ex:  # noqa
                 res["exc"] = "%s: %s" % (type(ex).__name__, str(ex)[:160])
             res["warn"] = any("CG terminated" in str(x.message) for x in w)
@@ -164,7 +172,9 @@ def observe(spec, rhs, left, st):
     finally:
         U.linear_cg = orig_cg
         lg.handlers, lg.propagate = old_handlers, old_prop
-    res["events"] = parse_events(cap.msgs, cgcalls)
+    n1, c1 = res.get("split", (len(cap.msgs), len(cgcalls)))
+    res["events"] = parse_events(cap.msgs[:n1], cgcalls[:c1])
+    res["events2"] = parse_events(cap.msgs[n1:], cgcalls[c1:])
     return res
 
 
@@ -179,6 +189,8 @@ def class_configs(quick):
         C.append(("Sum", {}, n))
     for n in [3, 7]:
         C.append(("ConstantMul", {}, n))
+    for sizes in [(2, 3), (2, 2)]:
+        C.append(("SumKron", {"sizes": sizes}, int(math.prod(sizes))))
     for n in [1, 4, 8]:
         C.append(("Toeplitz", {}, n))
     for n in [3, 6]:
@@ -196,7 +208,9 @@ def class_configs(quick):
             C.append(("Chol", {"upper": up}, n))
             C.append(("Tri", {"upper": up}, n))
         C.append(("CholInverse", {"upper": up}, 3))
+        C.append(("CholDiag", {"upper": up}, 4))            # Chol over a Diag root: DiagLinearOperator._cholesky_solve
         C.append(("TriPlusDiag", {"upper": up}, 3))
+        C.append(("TriRepeat", {"upper": up, "rep": (2,)}, 3))      # Triangular over a BatchRepeat base
     for sizes in [(2, 3), (3, 2), (2, 2, 2), (1, 3), (4, 3)]:
         C.append(("Kron", {"sizes": sizes}, int(math.prod(sizes))))
     C.append(("Kron", {"sizes": (2, 3), "fcls": ["Dense", "Diag"]}, 6))
@@ -220,7 +234,7 @@ def class_configs(quick):
     return C
 
 
-OWN_SOLVE = {"Diag", "ConstantDiag", "Identity", "Chol", "CholInverse", "Tri", "TriPlusDiag", "LowRankRootAddedDiag"}
+OWN_SOLVE = {"Diag", "ConstantDiag", "Identity", "Chol", "CholInverse", "CholDiag", "Tri", "TriPlusDiag", "TriRepeat", "LowRankRootAddedDiag"}
 NOT_PD_NEEDS_BRANCH3 = {"Permutation"}
 RHS_KINDS = ["vec", "mat", "bat", "bcast", "left", "leftvec", "leftbat"]
 KAPPAS = [1e0, 1e2, 1e4, 1e6]
@@ -263,6 +277,13 @@ def make_rhs(rng, kind, N, obatch):
     return rhs, left
 
 
+class _Wide:
+    """the same run context at thorough width (used by the search after a broken proof obligation)"""
+
+    def __init__(self, ctx):
+        self.seed, self.quick = ctx.seed, False
+
+
 def cells(ctx):
     """the deterministic grid of structural cells; the seed picks values and, in the quick tier, which
     settings rows / kappas represent a cell"""
@@ -274,7 +295,7 @@ def cells(ctx):
     for ci, (cls, kw, n) in enumerate(configs):
         N = total_size(cls, kw, n)
         for ob in ([(), (2,)] if ctx.quick else [(), (2,), (2, 1)]):
-            if cls == "BatchRepeat" and ob:
+            if cls in ("BatchRepeat", "TriRepeat") and ob:
                 continue
             for ki, kind in enumerate(RHS_KINDS):
                 if cls == "BatchRepeat" and kind in ("bcast",):
@@ -304,7 +325,22 @@ def cells(ctx):
                     for kp in ([kappa] if ctx.quick else KAPPAS):
                         if N == 1 and kp != 1e0 and ctx.quick:
                             kp = 1e0
-                        out.append(dict(cls=cls, kw=kw, n=n, N=N, ob=ob, kind=kind, st=st, kappa=kp))
+                        out.append(dict(cls=cls, kw=kw, n=n, N=N, ob=ob, kind=kind, st=st, kappa=kp, dtype="f64"))
+    # float32 operators (direct methods and the eigen-shift; the model runs in binary64 on the binary32 inputs, tolerance 2e-3)
+    f32 = [c for c in configs if (c[0], c[2]) in {("Dense", 5), ("Sum", 4), ("AddedDiag", 6), ("Diag", 4), ("ConstantDiag", 3),
+                                                 ("Identity", 4), ("Chol", 3), ("Tri", 3), ("LowRankRootAddedDiag", 5),
+                                                 ("BatchRepeat", 3)}
+           or (c[0] == "Kron" and c[1].get("sizes") == (2, 3) and "fcls" not in c[1])
+           or (c[0] == "KronAddedDiag" and c[1].get("sizes") == (2, 3) and c[1]["dk"] == "const")
+           or (c[0] in ("BlockDiag", "BlockInterleaved") and c[1].get("blocks") == 2 and "base" not in c[1])]
+    for ci, (cls, kw, n) in enumerate(f32):
+        N = total_size(cls, kw, n)
+        for ki, kind in enumerate(["vec", "mat", "left", "bat"] if not ctx.quick else ["mat", "left"]):
+            for j in range(1 if ctx.quick else 3):
+                st = dict(rows[(ci * 3 + ki + j * 7 + rng.randrange(len(rows))) % len(rows)])
+                st["mcs"] = 0 if (cls == "KronAddedDiag" and j % 2 == 0) else d["mcs"]
+                for kp in ([KAPPAS[rng.randrange(2)]] if ctx.quick else KAPPAS[:2]):
+                    out.append(dict(cls=cls, kw=kw, n=n, N=N, ob=(), kind=kind, st=st, kappa=kp, dtype="f32"))
     return out
 
 
@@ -339,7 +375,9 @@ def reference(spec, rhs, left):
     return x
 
 
-def value_tol(kappa):
+def value_tol(kappa, dtype="f64"):
+    if dtype == "f32":
+        return 2e-3
     return 1e-9 if kappa <= 1e4 else 1e-7
 
 
@@ -363,15 +401,23 @@ def predicate(cell, spec, rhs, left, obs):
         return ("type", str(type(out)))
     if list(out.shape) != eshape:
         return ("shape", "got %s expected %s" % (list(out.shape), eshape))
-    if out.dtype != F64:
+    if out.dtype != (torch.float32 if cell.get("dtype") == "f32" else F64):
         return ("dtype", str(out.dtype))
+    out = out.to(F64)
+    obs = dict(obs, out=out, out2=(obs["out2"].to(F64) if torch.is_tensor(obs.get("out2")) else obs.get("out2")))
     if not torch.isfinite(out).all():
         return ("nonfinite", "")
+    if "exc2" in obs:
+        return ("raises", "second solve on the same object: " + obs["exc2"])
+    out2 = obs.get("out2")
+    if not torch.is_tensor(out2) or out2.shape != out.shape or \
+            (out2 - out).abs().max().item() > value_tol(cell["kappa"], cell.get("dtype", "f64")) * max(1.0, out.abs().max().item()):
+        return ("repeat", "a second solve on the same object returns a different answer")
     ref = reference(spec, rhs, left)
     cgs = [e for e in obs["events"] if e[0] == "cg"]
     if not cgs:
         err = (out - ref).abs().max().item() / max(1.0, ref.abs().max().item())
-        tol = value_tol(cell["kappa"])
+        tol = value_tol(cell["kappa"], cell.get("dtype", "f64"))
         if err > tol:
             return ("value", "max rel err %.3e > %.1e" % (err, tol))
         return None
@@ -424,7 +470,7 @@ def settings_lit(st):
 
 
 def case_lit(cell, spec, rhs, left, obs):
-    out = obs["out"]
+    out = obs["out"].to(F64)
     eshape, bb = expected_shape(spec, rhs, left)
     ob = ops.batch(spec)
     vec = rhs.dim() == 1
@@ -445,11 +491,12 @@ def case_lit(cell, spec, rhs, left, obs):
     if spec["cls"] == "BatchRepeat" and left is None and not ops.batch(spec["base"]) and len(spec["rep"]) == 1 \
             and coarse_method(obs["events"]) == "cholesky":
         fold = spec["rep"][0]
-    return "(MkCase %s %s %s %s %d%%N [:: %s] %s %s %d%%N [:: %s] [:: %s] %s)" % (
+    return "(MkCase %s %s %s %s %d%%N [:: %s] %s %s %d%%N [:: %s] [:: %s] [:: %s] %s)" % (
         settings_lit(cell["st"]), ops.nat_list(ob), ops.nat_list(rb), ops.nat_list(bb), r.shape[-1],
-        ";\n   ".join(mems), common.flit(value_tol(cell["kappa"])), common.flit(cell["st"]["cgtol"]), fold,
+        ";\n   ".join(mems), common.flit(value_tol(cell["kappa"], cell.get("dtype", "f64"))), common.flit(cell["st"]["cgtol"]), fold,
         "; ".join(event_lit(e) for e in obs["events"]),
-        "; ".join(common.flit(e[4]) for e in obs["events"] if e[0] == "cg"), common.coq_bool(obs["warn"]))
+        "; ".join(common.flit(e[4]) for e in obs["events"] if e[0] == "cg"),
+        "; ".join(event_lit(e) for e in obs["events2"]), common.coq_bool(obs["warn"]))
 
 
 def parse_seq_nat(out):
@@ -513,7 +560,8 @@ def fix_spec(e):
 
 def key_of(cell, spec, obs, fail):
     return {"cls": cell["cls"], "tree": ops.label(spec), "kind": cell["kind"], "method": coarse_method(obs["events"]),
-            "batched": bool(cell["ob"]), "own_solve": cell["cls"] in OWN_SOLVE, "fail": fail}
+            "batched": bool(cell["ob"]), "own_solve": cell["cls"] in OWN_SOLVE, "dtype": cell.get("dtype", "f64"),
+            "left": cell["kind"].startswith("left"), "fail": fail}
 
 
 def replay_of(cell, spec, rhs, left, obs, what):
@@ -524,14 +572,48 @@ def replay_of(cell, spec, rhs, left, obs, what):
             "expected": ser(reference(spec, rhs, left))}
 
 
+def observe_cell(cell, spec, rhs, left):
+    """run the implementation on one cell; float32 cells: the operator is built from binary32 tensors, oracle and
+    model see the same values in binary64.  returns (spec64, rhs64, left64, obs)"""
+    if cell.get("dtype") != "f32":
+        return spec, rhs, left, observe(spec, rhs, left, cell["st"])
+
+    def mark(e, dt):
+        if isinstance(e, dict):
+            if e.get("cls") == "Identity":
+                e["dtype"] = dt
+            for v in e.values():
+                mark(v, dt)
+        elif isinstance(e, list):
+            for v in e:
+                mark(v, dt)
+        return e
+    spec32 = mark(ops.cast_spec(spec, torch.float32), torch.float32)
+    rhs32, left32 = rhs.float(), (left.float() if left is not None else None)
+    obs = observe(spec32, rhs32, left32, cell["st"])
+    spec64 = ops.cast_spec(spec32, F64)
+
+    def unmark(e):
+        if isinstance(e, dict):
+            e.pop("dtype", None)
+            for v in e.values():
+                unmark(v)
+        elif isinstance(e, list):
+            for v in e:
+                unmark(v)
+        return e
+    return unmark(spec64), rhs32.double(), (left32.double() if left32 is not None else None), obs
+
+
 def generate(ctx, budget_s=None):
     """run the implementation on every cell; yields (cell, spec, rhs, left, obs)"""
     rng = random.Random(ctx.seed * 7919 + 17)
+    torch.manual_seed(ctx.seed)          # the library's own randomness (Lanczos probe vectors) is derived from the seed too
     t0 = time.time()
     for cell in cells(ctx):
         spec = ops.gen(rng, cell["cls"], cell["n"], cell["kappa"], cell["ob"], **cell["kw"])
         rhs, left = make_rhs(rng, cell["kind"], cell["N"], ops.batch(spec))
-        obs = observe(spec, rhs, left, cell["st"])
+        spec, rhs, left, obs = observe_cell(cell, spec, rhs, left)
         yield cell, spec, rhs, left, obs
         if budget_s and time.time() - t0 > budget_s:
             break
@@ -541,7 +623,7 @@ def direct_search(ctx, limit=5):
     """evaluate the property predicate on every generated case; report concrete failing inputs"""
     found = 0
     seen = set()
-    for cell, spec, rhs, left, obs in generate(ctx):
+    for cell, spec, rhs, left, obs in generate(_Wide(ctx), budget_s=900):
         f = predicate(cell, spec, rhs, left, obs)
         if f:
             key = key_of(cell, spec, obs, f[0])
@@ -550,9 +632,7 @@ def direct_search(ctx, limit=5):
                 continue
             seen.add(sig)
             if ctx.violation(dict(replay_of(cell, spec, rhs, left, obs, "property-failure"), what=f[1]), key=key):
-                found += 1
-            else:
-                found += 1     # a listed known finding also counts as "the search found the input"
+                found += 1     # (a listed known finding does not explain a broken obligation: not counted)
             if found >= limit:
                 break
     return found
@@ -606,7 +686,7 @@ def run(ctx):
     t0 = time.time()
     cases = []          # (cell, spec, rhs, left, obs, literal or None)
     stats = {"calls": 0, "raised": 0, "cg": 0, "cg_warned": 0, "direct_failures": 0}
-    by_method, by_cls, by_kind = {}, {}, {}
+    by_method, by_cls, by_kind, by_dtype = {}, {}, {}, {}
     seen_fail = set()
     distinct = set()
     for cell, spec, rhs, left, obs in generate(ctx):
@@ -615,6 +695,7 @@ def run(ctx):
         by_method[meth] = by_method.get(meth, 0) + 1
         by_cls[cell["cls"]] = by_cls.get(cell["cls"], 0) + 1
         by_kind[cell["kind"]] = by_kind.get(cell["kind"], 0) + 1
+        by_dtype[cell.get("dtype", "f64")] = by_dtype.get(cell.get("dtype", "f64"), 0) + 1
         if meth == "cg":
             stats["cg"] += 1
             stats["cg_warned"] += int(bool(obs["warn"]))
@@ -692,7 +773,7 @@ def run(ctx):
         "rule": "one evaluation = one solve call on the real operator (path events + values). non-trivial = matrix size > 1; distinct by "
                 "(operator tree, size, operator batch shape, rhs kind, observed method, settings row, condition number)",
         "samples": samples, "mismatches": len(mism), "shards": n_shards,
-        "settings_rows": len(covering_rows()), "by_method": by_method, "by_class": by_cls, "by_rhs_kind": by_kind,
+        "settings_rows": len(covering_rows()), "by_method": by_method, "by_class": by_cls, "by_rhs_kind": by_kind, "by_dtype": by_dtype,
         "stats": stats, "impl_seconds": round(t_impl, 1),
     })
     ctx.assumptions = [
@@ -710,11 +791,11 @@ def replay(rp):
     left = deser(rp["left"]) if rp.get("left") is not None else None
     cell = dict(rp["cell"])
     cell["ob"] = tuple(cell.get("ob", ()))
-    obs = observe(spec, rhs, left, cell["st"])
+    spec, rhs, left, obs = observe_cell(cell, spec, rhs, left)
     f = predicate(cell, spec, rhs, left, obs)
     print("operator:", ops.label(spec), "settings:", cell["st"], "rhs kind:", cell["kind"])
     print("events:", obs["events"], "warn:", obs.get("warn"), "exc:", obs.get("exc"))
     if torch.is_tensor(obs.get("out")):
-        print("max |out - reference| =", (obs["out"] - reference(spec, rhs, left)).abs().max().item())
+        print("max |out - reference| =", (obs["out"].to(F64) - reference(spec, rhs, left)).abs().max().item())
     print("property failure: %s" % (f,) if f else "property holds on this case")
     return 1 if f else 0
